@@ -101,6 +101,21 @@ CHECKS = {
           'environment facts) must fail at once with FailedFastError or be served by another member; reconnect gaps are non-decreasing '
           'and capped; traffic resumes within one max interval after the endpoint is reachable; no connect after Close.',
           'prompt in-order network; unanswered connects fail after a 20 s kernel timeout; virtual time', '3/C09'),
+  'C11': ('B+S', 'model_checking',
+          'BFS over TagPool histories plus stateless deviation-bounded exploration of the real ThriftMux transport against an adversarial peer',
+          'Part 1: every get/release/double-release history of the real TagPool(max_tag=7) to depth 10/12. Part 2: the real mux transport '
+          'over simulated sockets; requests with and without deadlines, replies in any order, deadlines firing before or after the write, '
+          'bogus peer frames (tag 0, tag 1 non-ping, highest+1, highest+5, duplicates, unsolicited Rping), reset + fresh transport; every '
+          'frame the independent peer decodes is checked: tag in [2, 2^24-2], not carried by another unanswered request, never reserved, '
+          'and tag consumption bounded by the peak number of tag-holding requests.',
+          'max_tag abstraction 7 for the pool; independent mux codec; re-open = fresh transport object', '3/C11'),
+  'C16': ('B', 'model_checking',
+          'explicit-state BFS by history replay over the real SingletonPoolSink, RefCountedSink and SharedSinkProvider with stub sinks',
+          'Singleton pool: all histories of Open/Close/request/completion/fault/open-outcome (immediate and pending opens) to depth 8/10: at most '
+          'one live underlying connection in every state, no request on a connection that had failed before it arrived. RefCountedSink: all '
+          'Open/Close histories by three holders incl. surplus closes: underlying Open exactly on 0->1, Close exactly on 1->0, same Open '
+          'result in between. SharedSinkProvider: Create/Drop/gc histories over keys {k1,k2,None}.',
+          'reference counting by count (holders are indistinguishable to the sink); gc only at explicit gc operations', '3/C16'),
 }
 
 NOT_BUILT = 'check not built yet in this session (planned, see DESIGN.md section 3)'
